@@ -490,6 +490,11 @@ def conc_sessions(ctx, n=None, only=None):
         rng = ctx.rng
         mode = (only or {}).get("mode") or ("threads" if k % 2 == 0 else "tasks")
         nw = (only or {}).get("workers") or rng.choice([2, 2, 3])
+        # preset "inflight": a multi-chunk shell is under way on a stop-and-wait device while another worker closes and reconnects the object and a third
+        # then opens a stream on the NEW connection (device numbering restarted): the old operation must not receive the new stream's packets
+        inflight = only is None and ctx.prop in ("C06", "C12", "C01", "C14") and rng.random() < (0.5 if ctx.prop == "C06" else 0.25)
+        if inflight:
+            nw = 3
         start = (only or {}).get("start", rng.choice([0, 0, 5, 2 ** 32 - 3, 2 ** 32 - 2]))
         lines = (only or {}).get("lines", mode == "threads" and rng.random() < 0.5)
         outs = {}
@@ -505,9 +510,28 @@ def conc_sessions(ctx, n=None, only=None):
             start, kinds = 0, ["shell"] * nw         # shell streams side by side whose (local, remote) id pairs mirror each other (see remote_ids below)
         if only is None and ctx.prop in ("C06", "C12") and rng.random() < 0.25:
             kinds[rng.randrange(nw)] = "close"       # somebody closes the device while the others are in the middle of their operations
-        if only is None and ctx.prop in ("C02", "C12", "C06", "C15") and rng.random() < (0.4 if ctx.prop == "C02" else 0.15):
+        if only is None and ctx.prop in ("C02", "C12", "C06", "C15") and rng.random() < (0.4 if ctx.prop in ("C02", "C06") else 0.15):
             kinds[rng.randrange(nw)] = "reconnect"   # somebody calls connect() again while the others are in the middle of (possibly half-written) messages
+        if inflight:
+            kinds = ["shell", "reconnect", "shell"]
+            start = 0
+            outs = {b"w0": [b"A" * (j + 1) + bytes([48 + j]) for j in range(rng.choice([3, 4, 6]))], b"w1": [b"unused"], b"w2": [b"BB0", b"BBB1", b"B2"][: rng.randrange(1, 4)]}
         rparks = (only or {}).get("rparks") or rng.randrange(1, 6)
+        if inflight:
+            rparks = rng.randrange(2, 14)
+        sticky = 0.0 if only is not None else (rng.choice([0.85, 0.93, 0.97]) if inflight else rng.choice([0.0, 0.0, 0.5, 0.9]))   # how bursty the schedule is (replays use the recorded order)
+        policy = None
+        if inflight and rng.random() < 0.7:
+            # phases: worker 0 (the multi-chunk shell) first, for a random number of steps; then the reconnecting worker until it is done; then anybody
+            n_first = rng.randrange(8, 60)
+
+            def policy(cand, b, n_first=n_first):
+                if len(b.picks) < n_first:
+                    return 0 if 0 in cand else None
+                if 1 not in b.finished:
+                    return 1 if 1 in cand else None
+                return None
+        rclose = (only or {}).get("rclose", inflight or rng.random() < 0.5)      # close() first, then connect() (what an application does after an error) -- or a bare connect()
         pushed = {i: bytes([97 + i]) * rng.choice([10, 3000, 5000]) for i in range(nw)}
         pulled = {i: bytes([65 + i]) * rng.choice([0, 7, 9000]) for i in range(nw)}
         if only is not None:
@@ -523,9 +547,9 @@ def conc_sessions(ctx, n=None, only=None):
         for i in failing:
             fs[("/r%d" % i).encode()] = ("fail", b"No such file %d" % i)
         clock = transports.Clock(1 << 40)
-        link = transports.Link(clock, [dict(sim=dict(maxdata=4096, shell=dict(outs), fs=fs, stat=stat, burst=bool((only or {}).get("burst", rng.random() < 0.3)),
-                                                   zero_local=bool((only or {}).get("zero_local", rng.random() < 0.2)),
-                                                   remote_ids=[("rot", nw)] * 30 if (only or {}).get("rot", start == 0 and rng.random() < (0.8 if ctx.prop == "C01" else 0.4)) else []), dt=1)])
+        link = transports.Link(clock, [dict(sim=dict(maxdata=4096, shell=dict(outs), fs=fs, stat=stat, burst=bool((only or {}).get("burst", (not inflight) and rng.random() < 0.3)),
+                                                   zero_local=bool((only or {}).get("zero_local", (not inflight) and rng.random() < 0.2)),
+                                                   remote_ids=[("rot", nw)] * 30 if (only or {}).get("rot", (not inflight) and start == 0 and rng.random() < (0.8 if ctx.prop == "C01" else 0.4)) else []), dt=1)])
         if "reconnect" in kinds:
             import copy as _copy
             link.future.append(transports.ConnEnv(_copy.deepcopy(link.future[0].env))) if hasattr(link.future[0], "env") else None
@@ -541,6 +565,8 @@ def conc_sessions(ctx, n=None, only=None):
             dev.connect()
             dev._local_id = start
             baton = sched.Baton(rng, fixed=order)
+            baton.sticky = sticky
+            baton.policy = policy
             dev._local_id_lock = sched.SchedLock(baton, "localId")
             dev._io_manager._transport_lock = sched.SchedLock(baton, "transport")
             dev._io_manager._store_lock = sched.SchedLock(baton, "store")
@@ -582,6 +608,9 @@ def conc_sessions(ctx, n=None, only=None):
                     elif kinds[i] == "reconnect":
                         for _ in range(rparks):
                             baton.park(("io",))
+                        if rclose:
+                            dev.close()
+                            baton.park(("io",))
                         dev.connect()
                         results[i] = ("ok", None)
                     elif kinds[i] == "shell":
@@ -615,6 +644,8 @@ def conc_sessions(ctx, n=None, only=None):
                 await dev.connect()
                 dev._local_id = start
                 baton = sched.AsyncBaton(rng, fixed=order)
+                baton.sticky = sticky
+                baton.policy = policy
                 baton.held, baton.ctx = {}, {}
                 task_ids = {}
                 tid_of = lambda: task_ids.get(asyncio.current_task())
@@ -645,6 +676,9 @@ def conc_sessions(ctx, n=None, only=None):
                             results[i] = ("ok", None)
                         elif kinds[i] == "reconnect":
                             for _ in range(rparks):
+                                await baton.park(i, ("io",))
+                            if rclose:
+                                await dev.close()
                                 await baton.park(i, ("io",))
                             await dev.connect()
                             results[i] = ("ok", None)
@@ -689,7 +723,7 @@ def conc_sessions(ctx, n=None, only=None):
         rep.evaluations += 1
         rep.count("conc_sessions_mode", mode)
         ser = dict(kind="conc-sessions", mode=mode, workers=nw, start=start, lines=bool(lines), burst=bool(sim.cfg.get("burst")), zero_local=bool(sim.cfg.get("zero_local")), failing=list(failing), rot=bool(sim.cfg.get("remote_ids")),
-                   outs=[[a.hex(), [c.hex() for c in cs]] for a, cs in sorted(outs.items())], order=sched_order, kinds=kinds, rparks=rparks,
+                   outs=[[a.hex(), [c.hex() for c in cs]] for a, cs in sorted(outs.items())], order=sched_order, kinds=kinds, rparks=rparks, rclose=bool(rclose),
                    pushed={str(k2): v.hex() for k2, v in pushed.items()}, pulled={str(k2): v.hex() for k2, v in pulled.items()})
         rep.signatures.add(("concsess", mode, nw, tuple(sched_order[:40])))
         fails = []
@@ -702,6 +736,17 @@ def conc_sessions(ctx, n=None, only=None):
             for i in range(nw):
                 if results[i] is None:
                     fails.append(("deadlock", "worker %d (%s) never finished after another worker called connect()" % (i, kinds[i])))
+            # ... and whoever returns normally returns ITS OWN data: streams of the new connection never get mixed up with those of the old one
+            for i in range(nw):
+                r = results[i]
+                if r is None or r[0] != "ok" or i in failing:
+                    continue
+                if kinds[i] == "shell" and bytes(r[1]) != b"".join(outs[cmds[i]]):
+                    fails.append(("crosstalk-or-reorder", "worker %d (%s) got %r across a reconnect by another worker; the device wrote %r on its stream" % (i, cmds[i].decode(), bytes(r[1]), b"".join(outs[cmds[i]]))))
+                elif kinds[i] == "stat" and tuple(r[1]) != (33188 + i, len(pulled[i]), 1000 + i):
+                    fails.append(("crosstalk-or-reorder", "worker %d stat(/r%d) returned %r across a reconnect, the device answers %r" % (i, i, r[1], (33188 + i, len(pulled[i]), 1000 + i))))
+                elif kinds[i] == "pull" and bytes(r[1]) != pulled[i]:
+                    fails.append(("crosstalk-or-reorder", "worker %d pulled %d bytes of /r%d across a reconnect, the device file has %d" % (i, len(r[1]), i, len(pulled[i]))))
             for ci, c in enumerate(link.used):
                 if c.sim.malformed is not None:
                     fails.append(("malformed-wire", "connection %d: the device received bytes that are not whole well-formed messages (header fields %r) while one worker "
